@@ -19,6 +19,7 @@ import (
 	"strings"
 	"time"
 
+	"github.com/jf-tech/go-corelib/caches"
 	"github.com/jf-tech/omniparser"
 	"github.com/jf-tech/omniparser/errs"
 	"github.com/jf-tech/omniparser/idr"
@@ -46,6 +47,8 @@ type Case struct {
 	Order   []int      `json:"order,omitempty"`
 	Indexed bool       `json:"indexed,omitempty"`
 	Kind    string     `json:"kind,omitempty"` // scenario name (for the histogram)
+	DynKeys      []string `json:"dyn_keys,omitempty"`      // xpath queries per record, in order; "!" = computed (xpath_dynamic)
+	StaticXPaths []string `json:"static_xpaths,omitempty"` // xpaths compiled once (reader creation)
 	Heap    bool       `json:"heap,omitempty"` // live-heap run: no logging wrapper, lazily generated input
 	RunAt   int        `json:"run_at,omitempty"`  // records RunAt .. RunAt+RunLen-1 are Recs[1] (rejected by the filter):
 	RunLen  int        `json:"run_len,omitempty"` // one long unbroken run of rejections inside ONE Read of the caller
@@ -251,6 +254,13 @@ func pad(s string, n int) string {
 		return s[:n]
 	}
 	return s + strings.Repeat(" ", n-len(s))
+}
+
+func minInt(a, b int) int {
+	if a < b {
+		return a
+	}
+	return b
 }
 
 func jsonQuote(s string) string {
@@ -557,6 +567,8 @@ func dynCase(format string, count int, r *vh.Rng) *Case {
 		c.Recs = []string{`{"key":"k#I#","attrs":{"k#I#":"v#I#"},"a":"1"}`}
 	}
 	c.Pass = []bool{true}
+	c.StaticXPaths = []string{xp}
+	c.DynKeys = []string{"a", "key", "!attrs/k#I#", "key", "key"}
 	c.Schema = `{` + hdr(format) + `, "transform_declarations": { "FINAL_OUTPUT": { "xpath": "` + xp + `", "object": {
   "a": { "xpath": "a" },
   "d": { "xpath_dynamic": { "custom_func": { "name": "concat", "args": [ { "const": "attrs/" }, { "xpath": "key" } ] } } },
@@ -658,9 +670,65 @@ func jsonCase(shape string, scalar, filter bool, tfail string, count int, r *vh.
 const coqCap = 4000      // records per Coq case of a record-at-a-time reader (the Go oracle sees all of them)
 const coqStreamCap = 80 // records per Coq case of the XML/JSON stream readers: the model is rerun on a shorter input
 
+// xpathCacheKeys lists the expression texts in the process-wide cache of compiled xpaths.
+func xpathCacheKeys() []string {
+	var ks []string
+	for k := range caches.XPathExprCache.DumpForTest() {
+		if s, ok := k.(string); ok {
+			ks = append(ks, s)
+		}
+	}
+	sort.Strings(ks)
+	return ks
+}
+
+func coqBytesList(xs []string) string {
+	var ys []string
+	for _, x := range xs {
+		ys = append(ys, vh.CoqHex([]byte(x)))
+	}
+	return vh.CoqList(ys)
+}
+
 func runCase(o *vh.Opts, c *Case, sum *vh.Summary, cw *vh.CaseWriter, verbose bool) (nontrivial bool) {
 	vh.Current(o, c)
+	var before []string
+	if len(c.DynKeys) > 0 {
+		before = xpathCacheKeys()
+	}
 	res := run(c, c.Target != nil && c.Count <= coqStreamCap)
+	if len(c.DynKeys) > 0 && res.Fin == "EOF" {
+		// ---- the expression cache: the computed xpaths of the records must not be in it ----
+		after := xpathCacheKeys()
+		isOld := map[string]bool{}
+		for _, k := range before {
+			isOld[k] = true
+		}
+		var added []string
+		for _, k := range after {
+			if !isOld[k] {
+				added = append(added, k)
+			}
+		}
+		sum.Hist("xpath-cache-run")
+		if len(added) > len(c.StaticXPaths) {
+			sum.Fail("the process-wide xpath expression cache grows with the records transformed (computed xpath texts are kept)",
+				c, map[string]interface{}{"entries_before": len(before), "entries_after": len(after), "some_added": added[:minInt(len(added), 8)]})
+		}
+		var qs []string
+		for _, x := range c.StaticXPaths {
+			qs = append(qs, "(false, "+vh.CoqHex([]byte(x))+")")
+		}
+		for i := 0; i < c.Count; i++ {
+			for _, k := range c.DynKeys {
+				dyn, text := k[0] == '!', strings.ReplaceAll(strings.TrimPrefix(k, "!"), "#I#", fmt.Sprint(i))
+				qs = append(qs, "("+vh.CoqBool(dyn)+", "+vh.CoqHex([]byte(text))+")")
+			}
+		}
+		if c.Count <= 2000 {
+			cw.Add(fmt.Sprintf("C17XPath (mkPCase %s %s %s)", coqBytesList(before), vh.CoqList(qs), coqBytesList(after)), c)
+		}
+	}
 	if verbose {
 		fmt.Printf("format=%s kind=%q count=%d joiner=%q open=%q close=%q prefix=%v order=%v\nrecs=%q\n", c.Format, c.Kind, c.Count, c.Joiner, c.Open, c.Close, c.Prefix, c.Order, c.Recs)
 		fmt.Printf("implementation: %d records transformed, %d failed transforms, %d reader deliveries measured, end=%s\n", res.OKs, res.Failed, len(res.Ms), res.Fin)
